@@ -195,6 +195,48 @@ pub fn run(rep: &'static Report) {
             println!("  {} [{}] P≤{}: {} schedules, {} points, {} distinct quiescent indexes counting vector order ({} sequential multiset outcomes)", sc.name, pname, bound, stats.schedules, stats.points, d, seq.len());
         }
     }
+    // negative control of the machinery: a deliberately non-atomic check-then-insert on the shared
+    // map (written here, not in the repository) must be caught by the same explorer and oracle —
+    // a harness that cannot fail has not been shown to work
+    {
+        set_placement(true);
+        let racy = |file: &'static str| crate::e1::Op {
+            desc: format!("CONTROL non-atomic check-then-insert for {}", file),
+            f: std::sync::Arc::new(move |db: &std::sync::Arc<pytest_language_server::FixtureDatabase>| {
+                let probe = pytest_language_server::FixtureDatabase::new();
+                probe.analyze_file(crate::e1::p(file), DEF_FX);
+                let d = probe.definitions.get("fx").unwrap()[0].clone();
+                if !db.definitions.contains_key("fx") {
+                    db.definitions.insert("fx".to_string(), vec![d]);
+                } else {
+                    db.definitions.get_mut("fx").unwrap().push(d);
+                }
+            }),
+        };
+        let control = Scenario { name: "control: racy check-then-insert".into(), pre: vec![], threads: vec![vec![racy("a/conftest.py")], vec![racy("b/conftest.py")]] };
+        let lost = Mutex::new(0u64);
+        let stats = vsched::explore(
+            2,
+            std::thread::available_parallelism().map_or(4, |n| n.get()),
+            100_000,
+            &|choices| {
+                let r = run_schedule(&control, choices, 10_000);
+                (r.outcome.clone(), r)
+            },
+            &|_o, r| {
+                if let Some(db) = &r.db {
+                    if db.definitions.get("fx").map(|v| v.len()).unwrap_or(0) != 2 {
+                        *lost.lock().unwrap() += 1;
+                    }
+                }
+            },
+        );
+        let l = *lost.lock().unwrap();
+        rep.set("negative_control", json!({"scenario": control.name, "schedules": stats.schedules, "schedules_with_a_lost_definition": l}));
+        if l == 0 {
+            rep.machinery_error("negative control: the explorer did not find the lost update of a deliberately racy check-then-insert");
+        }
+    }
     if max_distinct < 2 {
         rep.machinery_error("vacuous exploration: no scenario produced more than one quiescent index (even counting vector order) — nothing collided");
     }
